@@ -74,6 +74,7 @@ func driveMain(fs *flag.FlagSet, args []string) {
 	secsOv := fs.Int("secs", 0, "")
 	scratch := fs.String("scratch", os.TempDir(), "")
 	merge := fs.String("merge", "", "evidence fragment (JSON object) to merge into coverage, written by the check script")
+	extraViol := fs.String("extraviolation", "", "replay file of a violation found by a side check (e.g. the C18 race part); reported like any other")
 	fs.Parse(args)
 	p := registry[*propID]
 	if p == nil {
@@ -252,6 +253,14 @@ func driveMain(fs *flag.FlagSet, args []string) {
 		fmt.Printf("VIOLATION property=%s replay=%s\n", p.ID, final)
 		reported = append(reported, final)
 		exit = 1
+	}
+
+	if *extraViol != "" {
+		if _, err := os.Stat(*extraViol); err == nil {
+			fmt.Printf("VIOLATION property=%s replay=%s\n", p.ID, *extraViol)
+			reported = append(reported, *extraViol)
+			exit = 1
+		}
 	}
 
 	// known findings: one line per listed finding
